@@ -145,7 +145,13 @@ class InsecureHomeKitProtocol(asyncio.Protocol):
             # close the connection as we are now out of sync with the device
             # and any future requests will fail since the encryption counters
             # will be out of sync.
-            self.transport.write_eof()
+            try:
+                self.transport.write_eof()
+            except OSError:
+                # The peer may have reset the connection already in which case
+                # there is nothing to half close. Do not let that mask the
+                # original exception or skip closing the transport.
+                pass
             self.transport.close()
             if isinstance(ex, asyncio.TimeoutError):
                 timeout_expired = True
